@@ -14,5 +14,8 @@ for i,p in enumerate(g.get(variant if variant!='None' else None,[])):
     if '--ok' in sys.argv and p.is_err(): continue
     print("== path", i, "OK" if p.is_ok() else ("ERR" if p.is_err() else "?"))
     for c in p.conds: print("   cond", show(c[0])[:300], "=>", c[1], "@", c[2][1] if c[2] else "", "#%d"%c[3])
-    for e in p.effects: print("   eff ", repr(e)[:600])
+    for e in p.effects:
+        print("   eff ", repr(e)[:600])
+        if e.kind in ("loop_enter","loop_step"):
+            for k,v in e.value.items(): print("        ", k, "=", show(v)[:400])
     print("   ret ", show(p.ret)[:600])
